@@ -77,6 +77,8 @@ def gen_cases(tier, seed):
                 continue    # NI scaling is defined on real numeric raw data only (DESIGN.md C14)
             for e in '<>':
                 yield {'k': 'cell', 't': t, 'scale': kind, 'e': e, 's': seed}
+                if M.TYPES[t][2] is not None and kind in ('none', 'Linear', 'AdvancedAPI', 'Add'):
+                    yield {'k': 'cell', 't': t, 'scale': kind, 'e': e, 's': seed, 'il': True}     # interleaved layout
     for i in range(500000 if tier == 'thorough' else 1500):
         yield {'k': 'graph', 's': seed * 1000003 + i}
 
@@ -104,6 +106,11 @@ def build(case):
             if tt == 'str':
                 return ['abc'] * n
             return small_values(p, tt, n)
+        if case.get('il'):
+            # interleaved: all channels of a segment have the same length, so the empty channel lives in its own segment list
+            chans = [('g', 'full', t, 3, props), ('g', 'other', 'i16', 3, [])]
+            segs = M.build_file(rng, chans, nseg=2, nchunks=(2, 1), endian=case['e'], values_fn=vf, continuation='same', inter=True)
+            return segs, rng
         segs = M.build_file(rng, chans, nseg=2, nchunks=(2, 1), endian=case['e'], values_fn=vf, continuation='same')
         return segs, rng
     t = rng.choice(M.NUMERIC_REAL + ['bool'])
@@ -123,7 +130,7 @@ def judge(ctx, ch, what, got, cell, expect_len=None):
     ctx.count('dtype_checked')
     if len(got) == 0:
         ctx.count('empty_results_checked')
-    if C.norm_dtype(got.dtype) != C.norm_dtype(ch.dtype):
+    if got.dtype != ch.dtype:
         kind = 'empty' if len(got) == 0 else 'nonempty'
         rawk = 'raw-timestamp' if (cell[0] == 'ts' and cell[3]) else cell[0]
         ctx.violation('dtype/%s/%s' % (rawk, cell[1]),
@@ -142,7 +149,7 @@ def run_case(case, ctx):
     blob, _, _ = M.encode_file(segs)
     for raw_ts in ((False, True) if (case['k'] == 'cell' and case['t'] == 'ts') else (False,)):
         for mode in ('eager', 'lazy', 'metadata', 'eager-memmap', 'lazy-memmap'):
-            cellbase = (case.get('t', 'graph'), case.get('scale', 'graph'), mode, raw_ts, case.get('e', '?'))
+            cellbase = (case.get('t', 'graph'), case.get('scale', 'graph'), mode, raw_ts, case.get('e', '?') + ('/interleaved' if case.get('il') else ''))
             try:
                 if mode.endswith('memmap'):
                     tf = {'eager-memmap': TdmsFile.read, 'lazy-memmap': TdmsFile.open}[mode](io.BytesIO(blob), raw_timestamps=raw_ts, memmap_dir=ctx.tmpdir)
@@ -152,7 +159,7 @@ def run_case(case, ctx):
             except Exception as ex:
                 ctx.violation('open-raises/%s' % util.exc_key(ex), {'cell': cellbase})
                 continue
-            for cname in ('full', 'empty'):
+            for cname in (('full',) if case.get('il') else ('full', 'empty')):
                 ch = tf['g'][cname]
                 cell = cellbase + (cname,)
                 ctx.evaluation()
